@@ -90,3 +90,15 @@ Lemma bit31_needs_unsigned :
   parse_int 16 32 (s2b "80000000") = None /\ parse_uint 16 32 (s2b "80000000") = Some (2 ^ 31) /\
   to_i32 (2 ^ 31) = shl32 31.
 Proof. repeat split; vm_compute; reflexivity. Qed.
+
+(** the hygiene conditions are not decoration: a registry whose forward and reverse maps are
+    mutually inverse but which names the value 7 of enumeration 1 "12" is rejected by the checker,
+    and indeed 7 is written "12" and read back as the number 12 *)
+Definition numeric_name_registry : registry :=
+  mk_registry [] [] [(1, [(7, "12")])] [(1, [("12", 7)])] [] [] [] [].
+
+Lemma hygiene_is_needed :
+  registry_ok numeric_name_registry = false /\
+  bij_check [(7, s2b "12")] [(s2b "12", 7)] = true /\
+  read_enum numeric_name_registry 0 1 (write_enum numeric_name_registry 0 1 7) = Ok 12.
+Proof. repeat split; vm_compute; reflexivity. Qed.
